@@ -151,3 +151,101 @@ def limited_expect(vm, st, new, old):
 
 Contract(PATCH, '_limited', ['C17'], pa_setup(2), post_for(limited_expect), shapes=SH, raises=applies_only_if_found, hooks=pa_hooks(),
          modifies=['bound', 'optional'])
+
+
+# ------------------------------------------------------------------ patch(nodes, patch_dict): which rules reach which node
+#
+# Every node is patched exactly once, by the rules filed under the name it has in the input (docs/other_schemas.rst: rules
+# are looked up by node name; a rule group naming no node is ignored; after `A rename B` the group `B` of the same file does
+# not apply to the former A).  For every list of nodes and every rule table: afterwards position j holds
+# _apply(node_j, rules(name_j)) when the table has a non-empty group under name_j, and node_j itself otherwise; the list
+# keeps its length; no other position changes.  _apply is summarised as an opaque function of (node, rules).
+
+P_NAME = z3.Function('patch.node_name', Ref, StrSort)
+P_HAS = z3.Function('patch.has_rules', StrSort, z3.BoolSort())        # patch_dict.get(name) is a non-empty rule list
+P_RULES = z3.Function('patch.rules', StrSort, Ref)
+P_APPLIED = z3.Function('patch._apply', Ref, Ref, Ref)
+
+
+class RuleTable(Sym):
+    pass
+
+
+class Rules(Sym):
+    def __init__(self, name_t):
+        self.name_t = name_t
+
+    def sym_truthy(self, vm):
+        return P_HAS(self.name_t)
+
+
+def pp_setup(vm, module, env):
+    nodes = AbsList(vm, 'nodes')
+    table = RuleTable()
+    st = {'args': [nodes, table], 'nodes': nodes, 'elem0': nodes.elem, 'n0': nodes.length, 'closure_env': {}}
+    vm.state = st
+    return st
+
+
+def pp_hooks():
+    h = dict(HOOKS)
+
+    def getattr_(vm, obj, attr):
+        if isinstance(obj, SRef) and attr == 'name':
+            return SStr(P_NAME(obj.t))
+        if isinstance(obj, RuleTable) and attr == 'get':
+            return I.MethodOf(obj, 'get')
+        return HOOKS['getattr'](vm, obj, attr)
+
+    def method(vm, obj, name, args, kwargs):
+        if isinstance(obj, RuleTable) and name == 'get' and len(args) == 1:
+            return Rules(vm.as_str(args[0]))
+        return HOOKS['method'](vm, obj, name, args, kwargs)
+
+    def call(vm, fn, args, kwargs, node):
+        from vf.pyvc import Closure
+        if isinstance(fn, Closure) and fn.qualname.endswith('_apply'):
+            ok = len(args) == 2 and isinstance(args[0], SRef) and isinstance(args[1], Rules)
+            if not ok:
+                raise OutOfSubset('_apply called with something else than (a node, a rule group of the table)')
+            return SRef(P_APPLIED(args[0].t, P_RULES(args[1].name_t)), None, False)
+        return NotImplemented
+
+    h.update({'getattr': getattr_, 'method': method, 'call': call})
+    return h
+
+
+def pp_want(st, j):
+    n0 = st['elem0'](j).t
+    nm = P_NAME(n0)
+    return z3.If(P_HAS(nm), P_APPLIED(n0, P_RULES(nm)), n0)
+
+
+def pp_inv(vm, env, k):
+    st = vm.state
+    nodes = st['nodes']
+    j = z3.Int('j')
+    return [('length unchanged', nodes.length == st['n0']),
+            ('nodes passed: each patched by the rules under its own input name, or untouched',
+             z3.ForAll([j], z3.Implies(z3.And(0 <= j, j < k, j < st['n0']), nodes.elem(j).t == pp_want(st, j)))),
+            ('nodes ahead: untouched',
+             z3.ForAll([j], z3.Implies(z3.And(k <= j, j < st['n0']), nodes.elem(j).t == st['elem0'](j).t)))]
+
+
+def pp_post(vm, st, result):
+    nodes = st['nodes']
+    j = z3.Int('j')
+    return [('length unchanged', nodes.length == st['n0']),
+            ('every node patched exactly once, by the rules under its input name; a group naming no node changes nothing',
+             z3.ForAll([j], z3.Implies(z3.And(0 <= j, j < st['n0']), nodes.elem(j).t == pp_want(st, j))))]
+
+
+def pp_fresh_nodes(vm, name):
+    st = vm.state
+    st['nodes'] = AbsList(vm, 'nodes')
+    return st['nodes']
+
+
+Contract(PATCH, 'patch', ['C17'], pp_setup, pp_post, hooks=pp_hooks(), modifies=[],
+         loops={0: LoopAnn(pp_inv, index='k', locals_={'nodes': pp_fresh_nodes}, extra_havoc=('nodes',))},
+         notes=['_apply summarised as an opaque function of (node, rule group); the rule table as an opaque map from names'])
